@@ -20,20 +20,33 @@ PARTIAL = ['convergence ("after a few thousand observations the mass below the e
 ASSUMPTIONS = ['observations are finite']
 
 
-def paper_compare(ctx, case, xs, spec):
+def paper_compare(ctx, case, xs, spec, cols=None):
+    """cols: when given, the observations are arrays whose components are cols[c][i]; component 0 is xs"""
     est = p2lib.make(spec)
     p = [float(t) for t in est.q_desired]
     m = len(p)
-    st = None
     left_outer = False
-    for i, x in enumerate(xs):
-        pre = p2lib.state(est)
-        est.accumulate(x)
-        n, h, pos = p2lib.state(est)
+    ncomp = len(cols) if cols else 1
+    for i in range(len(xs)):
+        pres = [p2lib.state(est, c if cols else None) for c in range(ncomp)]
+        est.accumulate(np.array([cols[c][i] for c in range(ncomp)], dtype=float) if cols else xs[i])
+        for c in range(ncomp):
+            x = cols[c][i] if cols else xs[i]
+            r = _paper_one(ctx, case, p, m, pres[c], p2lib.state(est, c if cols else None), x, i, (cols[c] if cols else xs)[:m])
+            if r is None:
+                return left_outer
+            left_outer = left_outer or r
+    return left_outer
+
+
+def _paper_one(ctx, case, p, m, pre, post, x, i, first):
+    if True:
+        left_outer = False
+        n, h, pos = post
         if n < m:
-            continue
+            return False
         if n == m:
-            st = p2lib.paper_init(p, xs[:m])
+            st = p2lib.paper_init(p, first)
         else:
             # lock-step: advance the paper implementation from the implementation's previous state
             prev = dict(p=p, N=pre[0], q=list(pre[1]), n=[int(t) + 1 for t in pre[2]])
@@ -44,18 +57,17 @@ def paper_compare(ctx, case, xs, spec):
         h_ok = all(p2lib.close_rel(a, b) for a, b in zip(h, st['q']))
         ctx.count('paper_steps')
         if ranks_ok and h_ok:
-            continue
+            return left_outer
         if n > m:
             # is some decision of this step within rounding distance of its threshold?
             mg = []
             p2lib.paper_step(dict(p=p, N=pre[0], q=list(pre[1]), n=[int(t) + 1 for t in pre[2]]), x, margins=mg)
             if mg and min(mg) < 1e-9:
                 ctx.count('paper_ambiguous_under_rounding')
-                continue
+                return left_outer
         ctx.fail('p2-differs-from-paper', 'after observation %d: implementation ranks %s heights %s, paper algorithm ranks %s heights %s' % (
             i, [int(t) + 1 for t in pos], h, st['n'], st['q']), case)
-        return left_outer
-    return left_outer
+        return None
 
 
 def grid_cases(ctx):
@@ -138,7 +150,13 @@ def check(ctx):
         xs = p2lib.gen_seq(rng, n, fam)
         case = dict(spec=spec, family=fam, n=n, shape=[], cols=[xs])
         sm = c07.small(case)
-        left = paper_compare(ctx, sm, xs, spec)
+        cols = None
+        if rng.random() < 0.3:
+            cols = [xs] + [p2lib.gen_seq(rng, n, rng.choice(p2lib.FAMILIES)) for _ in range(rng.choice([1, 2]))]
+            case = dict(spec=spec, family=fam, n=n, shape=[len(cols)], cols=cols)
+            sm = c07.small(case)
+            ctx.count('array_observations')
+        left = paper_compare(ctx, sm, xs, spec, cols)
         nondefault = not (spec[0] == 'median' or (spec[0] == 'quantile' and spec[1] == 0.5))
         ctx.case((spec, xs), nondefault and left, sample=sm if n <= 12 else None)
         ctx.count('family:' + fam)
